@@ -96,6 +96,12 @@ where
     }
 
     fn map_and_write_current_buffer(&mut self) -> io::Result<()> {
+        // Without any buffered bytes there is nothing to map. This matters for the final flush on
+        // drop or unwrap, where the mapping of an empty remainder must not be written.
+        if self.buffer.is_empty() {
+            return Ok(());
+        }
+
         match self.inner {
             Some(ref mut inner) => inner.write_all(&(self.mapping_fn)(mem::take(&mut self.buffer))),
             None => Ok(()),
